@@ -1000,6 +1000,7 @@ def _lookup_rule(self, n, guard, S, row, xv):
     g = self.g
     cond, scope, ie = guard
     lows, ups, other = [], [], 0
+    strict_low = []
 
     def conj(c):
         c = strip(c)
@@ -1019,9 +1020,13 @@ def _lookup_rule(self, n, guard, S, row, xv):
             op = c['opcode']
             if a.same(X):
                 (lows if op in ('>', '>=') else ups).append(b)
+                if op == '>':
+                    strict_low.append(c)
                 return
             if b.same(X):
                 (ups if op in ('>', '>=') else lows).append(a)
+                if op == '<':
+                    strict_low.append(c)
                 return
         other += 1
     conj(cond)
@@ -1064,6 +1069,30 @@ def _lookup_rule(self, n, guard, S, row, xv):
                     self.chk.broke('SP.lookup (%s): the scan over the spline pieces does not start at piece 0 (%s); completeness of the lookup is not decided' %
                                    (g.name, g.unit.text(kids(inner)[0])[:50]))
                     return
+            if strict_low:
+                # x_j < x: no piece admits x == x_0 (the abscissae increase strictly, so no later row does either); unless another test on x
+                # picks that case up, the first knot is left to the extrapolation fall-back
+                inside = {id(m_) for m_ in walk(cond)}
+                elsewhere = 0
+                for m_ in walk(g.body):
+                    if id(m_) in inside or m_.get('kind') != 'BinaryOperator' or m_.get('opcode') not in ('<', '<=', '>', '>=', '==', '!='):
+                        continue
+                    for side in kids(m_):
+                        sd = strip(side)
+                        if sd.get('kind') == 'DeclRefExpr' and sd.get('referencedDecl', {}).get('name') == xv.lstrip('$').split('#')[0]:
+                            elsewhere += 1
+                if elsewhere:
+                    self.chk.instance('SP.lookup', '%s lower bound of the piece guard is strict and x is tested elsewhere in %s: which evaluation serves '
+                                      'x == first abscissa is not decided' % (g.unit.where(cond), g.name), 'undecided')
+                    self.chk.broke('SP.lookup (%s): strict lower bound of the piece guard with another test on x; the evaluation at the first knot is not decided' % g.name)
+                    return
+                self.chk.instance('SP.lookup', '%s piece %s is evaluated only when %s[%s][0] < x: x equal to the first abscissa selects no piece' %
+                                  (g.unit.where(cond), row, S, lo_row), 'refuted')
+                self.chk.violation(Finding('SP.lookup', rel(g.file), g.name, 'strict-lower', g.unit.where(cond),
+                                           '%s: the piece of row %s is evaluated under the strict guard %s[%s][0] < x; with strictly increasing abscissae no piece '
+                                           'admits x equal to the first abscissa, so the first point is evaluated by the extrapolation fall-back (the last piece) '
+                                           'and the spline does not pass through it' % (g.name, row, S, lo_row)))
+                return
             self.chk.instance('SP.lookup', '%s piece %s is evaluated exactly when %s[%s][0] <= x <= %s[%s][0]' % (g.unit.where(cond), row, S, lo_row, S, up_row))
             return
     self.chk.instance('SP.lookup', '%s piece %s is selected by a guard over other rows/columns' % (g.unit.where(cond), row), 'refuted')
